@@ -93,7 +93,7 @@ def variants_for(sc, rng, tier):
         vs.append(("jitter", {"PYTHONHASHSEED": "2"}, {"jitter": rng.randint(1, 10 ** 6)}))
     if tier != "quick":
         vs += [("hash", {"PYTHONHASHSEED": "2"}, {}), ("clock", {}, {"vclock": {"pc_step": 1e-7, "wall": 0.0, "wall_step": 1e6}}),
-               ("clock", {"PYTHONHASHSEED": "7"}, {"vclock": {"pc_step": 0.002, "wall": 2.0e9, "wall_step": 0.0}, "jitter": 5})]
+               ("jitter", {"PYTHONHASHSEED": "7"}, {"vclock": {"pc_step": 0.002, "wall": 2.0e9, "wall_step": 0.0}, "jitter": 5})]  # thread jitter on a virtual clock
     # ctx.now unset (the run_smoke_turn shape): the wall-clock date is placed near the scenario's logical clock in the
     # baseline and 45 / 400 days away from it in the variant - the logical clock (now_ms) is the same in both
     base_ms = sc["turns"][0]["now_ms"]
